@@ -705,6 +705,8 @@ fn classify_death(status: &str, diag: &str) -> String {
             .lines()
             .find_map(|l| l.find("cc6502::").map(|k| l[k..].trim().to_string()))
             .unwrap_or_else(|| "unknown".into());
+        // frames of the pest-generated parser differ by grammar rule: one site for the whole parser
+        let site = if site.contains("Cc2600Parser") { "cc6502::compile::Cc2600Parser (pest-generated parser)".to_string() } else { site };
         format!("alloc@{}", site)
     } else {
         status.replace(' ', "")
